@@ -28,7 +28,7 @@ def _pwl_integral(xs, fs):
     return tot
 
 
-def trap(S, n, boundary, modified, out_len=1):
+def trap(S, n, boundary, modified, out_len=1, prior=0):
     xs = lib.sorted_reals(S, 'x', n)
     a, b = xs[0], xs[-1]
     levels = [S.int('lev%d' % i) for i in range(n)]  # unconstrained: the rule must not depend on them
@@ -37,6 +37,14 @@ def trap(S, n, boundary, modified, out_len=1):
         S.assume(xs[1] * 2 == a + b)
     G = _grid_mod()
     grid = G.GlobalTrapezoidalGrid(a=[a], b=[b], boundary=boundary, modified_basis=modified)
+    if prior:
+        # the same grid object carried another point set before (the adaptive strategies call set_grid for every component grid):
+        # `prior` other symbolic points between the same end points, integrated once
+        ys = [a] + lib.sorted_reals(S, 'y', prior) + [b]
+        S.assume(ys[0] < ys[1])
+        S.assume(ys[-2] < ys[-1])
+        grid.set_grid([list(ys)], [[0] * len(ys)])
+        grid.integrate(lib.make_function(S, 'G', 1, out_len, cache=False), [1], [a], [b])
     grid.set_grid([list(xs)], [levels])
     f = lib.make_function(S, 'F', 1, out_len, cache=False)
     npts = grid.levelToNumPoints([1])
@@ -149,6 +157,11 @@ def jobs(tier):
         if n >= 3:
             js.append(Job('trap[n=%d,noboundary]' % n, trap, {'n': n, 'boundary': False, 'modified': False}))
             js.append(Job('trap[n=%d,modified]' % n, trap, {'n': n, 'boundary': False, 'modified': True}))
+    for n, prior in (((3, 2), (4, 2), (5, 3), (6, 1)) if tier == 'quick' else ((3, 2), (4, 2), (5, 3), (6, 1), (8, 4), (10, 2))):
+        js.append(Job('trap-reuse[n=%d,after=%d,boundary]' % (n, prior + 2), trap, {'n': n, 'boundary': True, 'modified': False, 'prior': prior}))
+        js.append(Job('trap-reuse[n=%d,after=%d,noboundary]' % (n, prior + 2), trap, {'n': n, 'boundary': False, 'modified': False, 'prior': prior}))
+        if n != 3:
+            js.append(Job('trap-reuse[n=%d,after=%d,modified]' % (n, prior + 2), trap, {'n': n, 'boundary': False, 'modified': True, 'prior': max(prior, 2)}))
     lo, hi = b['trapezoid vector-valued n']
     for n in range(lo, hi + 1):
         js.append(Job('trapvec[n=%d,boundary]' % n, trap, {'n': n, 'boundary': True, 'modified': False, 'out_len': 2}))
